@@ -1,2 +1,340 @@
-/- C08 — theorems under construction -/
-import MPilot.Model.Eems
+/-
+C08 — fuzzy conversions and normalisations compute their documented mappings.
+-/
+import MPilot.Props.C05
+import Mathlib.Data.List.Sort
+import Mathlib.Tactic.FieldSimp
+import Mathlib.Tactic.Ring
+import Mathlib.Tactic.NormNum
+import Mathlib.Tactic.Linarith
+import Mathlib.Algebra.Order.Field.Rat
+
+namespace MPilot.C08
+open MPilot
+
+/-! ### the linear map through two points (`CvtToFuzzy`, `CvtFromFuzzy`, z-score maps) -/
+
+/-- value that `linMap x1 x2 y1 y2` leaves in a present cell -/
+def lin (x1 x2 y1 y2 x : Rat) : Rat := (x - x1) * (y2 - y1) / (x2 - x1) + y1
+
+theorem linMap_cells (x1 x2 y1 y2 : Rat) (a : Arr) (h : x2 - x1 ≠ 0) :
+    (linMap x1 x2 y1 y2 a).cells = a.cells.map fun c => ⟨if c.mask then c.val else lin x1 x2 y1 y2 c.val, c.mask⟩ := by
+  unfold linMap
+  apply List.map_congr_left
+  intro c _
+  cases hm : c.mask <;> simp [Cell.sc, Cell.divSc, hm, h, lin]
+
+theorem lin_at_x1 (x1 x2 y1 y2 : Rat) : lin x1 x2 y1 y2 x1 = y1 := by simp [lin]
+theorem lin_at_x2 (x1 x2 y1 y2 : Rat) (h : x2 - x1 ≠ 0) : lin x1 x2 y1 y2 x2 = y2 := by
+  unfold lin; field_simp; ring
+
+/-- `CvtToFuzzy`'s mapping of a present value: line through (true threshold, +1), (false threshold, −1), clamped -/
+def toFuzzyVal (t f x : Rat) : Rat := clampHiLo (-1) 1 (lin t f 1 (-1) x)
+
+/-- the true threshold maps to +1 and the false threshold to −1 -/
+theorem toFuzzy_true (t f : Rat) : toFuzzyVal t f t = 1 := by
+  unfold toFuzzyVal; rw [lin_at_x1]; unfold clampHiLo; norm_num
+theorem toFuzzy_false (t f : Rat) (h : t ≠ f) : toFuzzyVal t f f = -1 := by
+  unfold toFuzzyVal; rw [lin_at_x2 _ _ _ _ (sub_ne_zero.mpr (Ne.symm h))]; unfold clampHiLo; norm_num
+
+/-- between the thresholds the mapping is the straight line (no clamping); outside it is clamped to ±1 -/
+theorem toFuzzy_between (t f x : Rat) (hft : f < t) (h1 : f ≤ x) (h2 : x ≤ t) : toFuzzyVal t f x = lin t f 1 (-1) x := by
+  unfold toFuzzyVal
+  have hd : f - t < 0 := by linarith
+  have e : lin t f 1 (-1) x = (x - t) * 2 / (t - f) + 1 := by
+    unfold lin
+    have : t - f ≠ 0 := by linarith
+    have : f - t ≠ 0 := by linarith
+    field_simp; ring
+  have hp : 0 < t - f := by linarith
+  have lo : -1 ≤ lin t f 1 (-1) x := by
+    rw [e]; have : -2 ≤ (x - t) * 2 / (t - f) := by rw [le_div_iff₀ hp]; nlinarith
+    linarith
+  have hi : lin t f 1 (-1) x ≤ 1 := by
+    rw [e]; have : (x - t) * 2 / (t - f) ≤ 0 := by rw [div_le_iff₀ hp]; nlinarith
+    linarith
+  unfold clampHiLo; simp only; split_ifs <;> linarith
+
+theorem toFuzzy_range (t f x : Rat) : -1 ≤ toFuzzyVal t f x ∧ toFuzzyVal t f x ≤ 1 := by
+  unfold toFuzzyVal clampHiLo; simp only; split_ifs <;> constructor <;> linarith
+
+/-- monotone when the true threshold is the larger one (order of cells preserved) … -/
+theorem toFuzzy_mono (t f : Rat) (hft : f < t) {x y : Rat} (hxy : x ≤ y) : toFuzzyVal t f x ≤ toFuzzyVal t f y := by
+  have hp : 0 < t - f := by linarith
+  have hl : lin t f 1 (-1) x ≤ lin t f 1 (-1) y := by
+    have e : ∀ z, lin t f 1 (-1) z = (z - t) * 2 / (t - f) + 1 := by
+      intro z; unfold lin
+      have : t - f ≠ 0 := by linarith
+      have : f - t ≠ 0 := by linarith
+      field_simp; ring
+    rw [e, e]
+    have : (x - t) * 2 / (t - f) ≤ (y - t) * 2 / (t - f) := by
+      apply div_le_div_of_nonneg_right _ (le_of_lt hp); linarith
+    linarith
+  unfold toFuzzyVal clampHiLo; simp only; split_ifs <;> linarith
+
+/-- … and antitone when it is the smaller one (order reversed) -/
+theorem toFuzzy_anti (t f : Rat) (htf : t < f) {x y : Rat} (hxy : x ≤ y) : toFuzzyVal t f y ≤ toFuzzyVal t f x := by
+  have hp : 0 < f - t := by linarith
+  have hl : lin t f 1 (-1) y ≤ lin t f 1 (-1) x := by
+    have e : ∀ z, lin t f 1 (-1) z = 1 - (z - t) * 2 / (f - t) := by
+      intro z; unfold lin
+      have : f - t ≠ 0 := by linarith
+      field_simp; ring
+    rw [e, e]
+    have : (x - t) * 2 / (f - t) ≤ (y - t) * 2 / (f - t) := by
+      apply div_le_div_of_nonneg_right _ (le_of_lt hp); linarith
+    linarith
+  unfold toFuzzyVal clampHiLo; simp only; split_ifs <;> linarith
+
+/-- **CvtToFuzzy with explicit thresholds**: every present cell holds `toFuzzyVal t f`, missing cells stay missing. -/
+theorem cvtToFuzzy_spec (sqrt : Rat → Rat) (a r : Arr) (t f : Num) (hv : a.valid ≠ []) (htf : t.val ≠ f.val)
+    (h : exec sqrt (.cvtToFuzzy (some t) (some f) none) [a] = .ok r) :
+    r.vis = a.cells.map fun c => if c.mask then none else some (toFuzzyVal t.val f.val c.val) := by
+  simp only [exec, exec.go] at h
+  have hmin : ∃ m, minL a.valid = some m := by
+    cases hl : a.valid with
+    | nil => exact absurd hl hv
+    | cons x xs => exact ⟨_, rfl⟩
+  have hmax : ∃ m, maxL a.valid = some m := by
+    cases hl : a.valid with
+    | nil => exact absurd hl hv
+    | cons x xs => exact ⟨_, rfl⟩
+  obtain ⟨mn, hmn⟩ := hmin
+  obtain ⟨mx, hmx⟩ := hmax
+  simp only [hmn, hmx, numOr, beq_iff_eq, htf, if_false] at h
+  simp only [fuzzyClamp, Except.map, Except.ok.injEq] at h
+  subst h
+  have hd : f.val - t.val ≠ 0 := sub_ne_zero.mpr (Ne.symm htf)
+  simp only [Arr.vis, Arr.insure, Arr.mapCells, linMap_cells _ _ _ _ _ hd, List.map_map]
+  apply List.map_congr_left
+  intro c _
+  cases hm : c.mask <;> simp [Cell.vis, Cell.insure, hm, toFuzzyVal]
+
+/-- **CvtFromFuzzy is the inverse of CvtToFuzzy between the thresholds** (where no clamping happened). -/
+theorem fromFuzzy_toFuzzy (t f x : Rat) (h : t ≠ f) : lin 1 (-1) t f (lin t f 1 (-1) x) = x := by
+  unfold lin
+  have : f - t ≠ 0 := sub_ne_zero.mpr (Ne.symm h)
+  field_simp
+  ring
+
+theorem cvtFromFuzzy_spec (sqrt : Rat → Rat) (a r : Arr) (t f : Num) (htf : t.val ≠ f.val)
+    (h : exec sqrt (.cvtFromFuzzy t f) [a] = .ok r) :
+    r.vis = a.cells.map fun c => if c.mask then none else some (lin 1 (-1) t.val f.val c.val) := by
+  simp only [exec, beq_iff_eq, htf, if_false, Except.ok.injEq] at h
+  subst h
+  simp only [Arr.vis, linMap_cells _ _ _ _ _ (by norm_num : (-1 : Rat) - 1 ≠ 0), List.map_map]
+  apply List.map_congr_left
+  intro c _
+  cases hm : c.mask <;> simp [Cell.vis, hm]
+
+/-- equal thresholds are rejected with the specific error (both directions of the pair) -/
+theorem equal_thresholds_error (sqrt : Rat → Rat) (a : Arr) (t f : Num) (h : t.val = f.val) :
+    exec sqrt (.cvtFromFuzzy t f) [a] = eMp "InvalidThresholds" .cmd := by
+  simp only [exec, beq_iff_eq, h, if_true]
+
+/-! ### threshold test -/
+
+theorem cvtToBinary_spec (sqrt : Rat → Rat) (a r : Arr) (th : Num) (dir : String) (hd : dir = "LowToHigh" ∨ dir = "HighToLow")
+    (h : exec sqrt (.cvtToBinary th dir) [a] = .ok r) :
+    r.vis = a.cells.map fun c => if c.mask then none else
+      some (if c.val < th.val then (if dir = "LowToHigh" then 0 else 1) else (if dir = "LowToHigh" then 1 else 0)) := by
+  simp only [exec] at h
+  have : ¬((dir != "LowToHigh" && dir != "HighToLow") = true) := by
+    rcases hd with rfl | rfl <;> decide
+  rw [if_neg this] at h
+  simp only [fuzzyClamp, Except.map, Except.ok.injEq] at h
+  subst h
+  simp only [Arr.vis, Arr.insure, Arr.mapCells, List.map_map]
+  apply List.map_congr_left
+  intro c _
+  cases hm : c.mask
+  · simp only [Function.comp, Cell.vis, Cell.insure, hm, beq_iff_eq]
+    rcases hd with rfl | rfl <;> split_ifs <;> simp_all [clampHiLo] <;> norm_num
+  · simp [Cell.vis, Cell.insure, hm]
+
+/-! ### category lookup -/
+
+/-- a value equal to the `i`-th raw value (raw values pairwise different) maps to the `i`-th normal value … -/
+theorem catLookup_hit (pairs : List (Num × Num)) (d : Rat) (p : Num × Num) (hp : p ∈ pairs)
+    (hnd : (pairs.map (·.1.val)).Nodup) : catLookup pairs d p.1.val = p.2.val := by
+  unfold catLookup
+  induction pairs generalizing d with
+  | nil => cases hp
+  | cons q t ih =>
+    simp only [List.map_cons, List.nodup_cons] at hnd
+    rw [List.foldl_cons]
+    rcases List.mem_cons.mp hp with rfl | hp
+    · -- hit at the head; no later pair has the same raw value
+      simp only [beq_self_eq_true, if_true]
+      have : ∀ (l : List (Num × Num)) (acc : Rat), (∀ q ∈ l, q.1.val ≠ p.1.val) →
+          l.foldl (fun acc (q : Num × Num) => if p.1.val == q.1.val then q.2.val else acc) acc = acc := by
+        intro l
+        induction l with
+        | nil => intro acc _; rfl
+        | cons z t ih2 =>
+          intro acc hne
+          rw [List.foldl_cons]
+          have : ¬(p.1.val = z.1.val) := fun e => hne z (List.mem_cons_self ..) e.symm
+          have hb : (p.1.val == z.1.val) = false := by simpa using this
+          rw [hb]
+          simp only [Bool.false_eq_true, if_false]
+          exact ih2 acc fun q hq => hne q (List.mem_cons_of_mem _ hq)
+      apply this
+      intro z hz e
+      exact hnd.1 (List.mem_map.mpr ⟨z, hz, e⟩)
+    · exact ih _ hp hnd.2
+
+/-- … and a value equal to none of them maps to the default -/
+theorem catLookup_miss (pairs : List (Num × Num)) (d x : Rat) (h : ∀ p ∈ pairs, p.1.val ≠ x) : catLookup pairs d x = d := by
+  unfold catLookup
+  induction pairs generalizing d with
+  | nil => rfl
+  | cons q t ih =>
+    rw [List.foldl_cons]
+    have : ¬(x = q.1.val) := fun e => h q (List.mem_cons_self ..) e.symm
+    have hb : (x == q.1.val) = false := by simpa using this
+    rw [hb]
+    simp only [Bool.false_eq_true, if_false]
+    exact ih d fun p hp => h p (List.mem_cons_of_mem _ hp)
+
+/-! ### every CvtToFuzzy variant is its Normalize counterpart clamped to [−1, +1] -/
+
+theorem fuzzy_variant_eq_clamp_normalize (sqrt : Rat → Rat) (a : Arr) :
+    (∀ raw v d, exec sqrt (.cvtToFuzzyCat raw v d) [a] = fuzzyClamp (exec sqrt (.normalizeCat raw v d) [a])) ∧
+    (∀ raw v, exec sqrt (.cvtToFuzzyCurve raw v) [a] = fuzzyClamp (exec sqrt (.normalizeCurve raw v) [a])) ∧
+    (∀ iz v, exec sqrt (.cvtToFuzzyMeanToMid iz v) [a] = fuzzyClamp (exec sqrt (.normalizeMeanToMid iz v) [a])) ∧
+    (∀ z v, exec sqrt (.cvtToFuzzyCurveZScore z v) [a] = fuzzyClamp (exec sqrt (.normalizeCurveZScore z v) [a])) ∧
+    (∀ t f : Num, exec sqrt (.cvtToFuzzyZScore (some t) (some f)) [a] =
+        fuzzyClamp (exec sqrt (.normalizeZScore (some t) (some f) (some ⟨-1, true⟩) (some ⟨1, true⟩)) [a])) := by
+  refine ⟨fun _ _ _ => rfl, fun _ _ => rfl, fun _ _ => rfl, fun _ _ => rfl, fun _ _ => rfl⟩
+
+/-! ### piecewise-linear curve -/
+
+/-- lexicographic order used by Python's `sorted(zip(raw, normal))` -/
+def pairLe (p q : Rat × Rat) : Prop := p.1 < q.1 ∨ (p.1 = q.1 ∧ p.2 ≤ q.2)
+
+theorem insertPair_perm (p : Rat × Rat) (l : List (Rat × Rat)) : (insertPair p l).Perm (p :: l) := by
+  induction l with
+  | nil => exact List.Perm.refl _
+  | cons q t ih =>
+    unfold insertPair
+    split_ifs
+    · exact List.Perm.refl _
+    · exact (List.Perm.cons q ih).trans (List.Perm.swap p q t)
+
+theorem sortPairs_perm_self (l : List (Rat × Rat)) : (sortPairs l).Perm l := by
+  unfold sortPairs
+  induction l with
+  | nil => exact List.Perm.refl _
+  | cons p t ih => exact (insertPair_perm p _).trans (List.Perm.cons p ih)
+
+theorem pairLe_total (p q : Rat × Rat) : pairLe p q ∨ pairLe q p := by
+  unfold pairLe
+  rcases lt_trichotomy p.1 q.1 with h | h | h
+  · exact Or.inl (Or.inl h)
+  · rcases le_total p.2 q.2 with h2 | h2
+    · exact Or.inl (Or.inr ⟨h, h2⟩)
+    · exact Or.inr (Or.inr ⟨h.symm, h2⟩)
+  · exact Or.inr (Or.inl h)
+
+theorem pairLe_trans {p q r : Rat × Rat} (h1 : pairLe p q) (h2 : pairLe q r) : pairLe p r := by
+  unfold pairLe at *
+  rcases h1 with h1 | ⟨e1, l1⟩ <;> rcases h2 with h2 | ⟨e2, l2⟩
+  · exact Or.inl (lt_trans h1 h2)
+  · exact Or.inl (by rw [← e2]; exact h1)
+  · exact Or.inl (by rw [e1]; exact h2)
+  · exact Or.inr ⟨e1.trans e2, le_trans l1 l2⟩
+
+theorem pairLe_antisymm {p q : Rat × Rat} (h1 : pairLe p q) (h2 : pairLe q p) : p = q := by
+  unfold pairLe at *
+  rcases h1 with h1 | ⟨e1, l1⟩ <;> rcases h2 with h2 | ⟨e2, l2⟩
+  · exact absurd h1 (not_lt.mpr (le_of_lt h2))
+  · rw [e2] at h1; exact absurd h1 (lt_irrefl _)
+  · rw [e1] at h2; exact absurd h2 (lt_irrefl _)
+  · exact Prod.ext e1 (le_antisymm l1 l2)
+
+theorem insertPair_sorted (p : Rat × Rat) (l : List (Rat × Rat)) (h : l.Pairwise pairLe) :
+    (insertPair p l).Pairwise pairLe := by
+  induction l with
+  | nil => simp [insertPair]
+  | cons q t ih =>
+    unfold insertPair
+    have hq := List.pairwise_cons.mp h
+    split_ifs with hc
+    · have hpq : pairLe p q := by
+        simp only [Bool.or_eq_true, decide_eq_true_eq, Bool.and_eq_true, beq_iff_eq] at hc
+        exact hc
+      refine List.pairwise_cons.mpr ⟨?_, h⟩
+      intro r hr
+      rcases List.mem_cons.mp hr with rfl | hr
+      · exact hpq
+      · exact pairLe_trans hpq (hq.1 r hr)
+    · have hqp : pairLe q p := by
+        rcases pairLe_total p q with h1 | h1
+        · exfalso; apply hc
+          simp only [Bool.or_eq_true, decide_eq_true_eq, Bool.and_eq_true, beq_iff_eq]
+          exact h1
+        · exact h1
+      refine List.pairwise_cons.mpr ⟨?_, ih hq.2⟩
+      intro r hr
+      rcases List.mem_cons.mp ((insertPair_perm p t).mem_iff.mp hr) with rfl | hr
+      · exact hqp
+      · exact hq.1 r hr
+
+theorem sortPairs_sorted (l : List (Rat × Rat)) : (sortPairs l).Pairwise pairLe := by
+  unfold sortPairs
+  induction l with
+  | nil => exact List.Pairwise.nil
+  | cons p t ih => exact insertPair_sorted p _ ih
+
+/-- **the curve does not depend on the order in which its control points are listed** -/
+theorem sortPairs_perm {l l' : List (Rat × Rat)} (h : l.Perm l') : sortPairs l = sortPairs l' := by
+  apply List.Perm.eq_of_pairwise (le := pairLe)
+  · intro a b _ _ h1 h2; exact pairLe_antisymm h1 h2
+  · exact sortPairs_sorted l
+  · exact sortPairs_sorted l'
+  · exact (sortPairs_perm_self l).trans (h.trans (sortPairs_perm_self l').symm)
+
+theorem curve_perm_invariant (ref : LineRef) (a : Arr) {raw nv raw' nv' : List Rat}
+    (h : (List.zip raw nv).Perm (List.zip raw' nv')) (hl : raw.length = nv.length) (hl' : raw'.length = nv'.length)
+    (hd : hasDup raw = false) (hd' : hasDup raw' = false) (hne : raw ≠ []) (hne' : raw' ≠ []) :
+    curveBody ref a raw nv = curveBody ref a raw' nv' := by
+  unfold curveBody
+  have e1 : (raw.length != nv.length) = false := by simpa using hl
+  have e2 : (raw'.length != nv'.length) = false := by simpa using hl'
+  have e3 : raw.isEmpty = false := by cases raw <;> simp_all
+  have e4 : raw'.isEmpty = false := by cases raw' <;> simp_all
+  simp only [e1, e2, hd, hd', e3, e4, Bool.false_eq_true, if_false, sortPairs_perm h]
+
+/-- flat below the first control point and above the last one -/
+theorem curveAt_below (p0 : Rat × Rat) (rest : List (Rat × Rat)) (x : Rat) (hx : x ≤ p0.1)
+    (hs : (p0 :: rest).Pairwise fun p q => p.1 < q.1) : curveAt (p0 :: rest) x = p0.2 := by
+  have hsegs : ∀ (prev : Rat × Rat) (ps : List (Rat × Rat)) (acc : Rat), x ≤ prev.1 →
+      (prev :: ps).Pairwise (fun p q => p.1 < q.1) → curveSegs x prev ps acc = acc := by
+    intro prev ps
+    induction ps generalizing prev with
+    | nil => intro acc _ _; rfl
+    | cons p t ih =>
+      intro acc hle hs
+      unfold curveSegs
+      have hn : ¬(x > prev.1) := not_lt.mpr hle
+      have hp := List.pairwise_cons.mp hs
+      simp only [decide_eq_true_eq, hn, false_and, Bool.false_and, Bool.false_eq_true, if_false, decide_false]
+      exact ih p acc (le_trans hle (le_of_lt (hp.1 p (List.mem_cons_self ..)))) hp.2
+  unfold curveAt
+  simp only [hx, if_true]
+  rw [hsegs p0 rest p0.2 hx hs]
+  have hlast : ∀ q ∈ p0 :: rest, p0.1 ≤ q.1 := by
+    intro q hq
+    rcases List.mem_cons.mp hq with rfl | hq
+    · exact le_refl _
+    · exact le_of_lt ((List.pairwise_cons.mp hs).1 q hq)
+  have : ¬(x > ((p0 :: rest).getLast!).1) := by
+    have hm : (p0 :: rest).getLast! ∈ p0 :: rest := by
+      rw [List.getLast!_of_getLast? (List.getLast?_eq_some_getLast (l := p0 :: rest) (by simp))]
+      exact List.getLast_mem _
+    exact not_lt.mpr (le_trans hx (hlast _ hm))
+  simp only [this, if_false]
+
+end MPilot.C08
